@@ -320,7 +320,8 @@ func c05ConfigEnum(thorough bool) mc.Enum {
 				h := env.Ctx().BlockHeight()
 				posted := 0
 				for i, f := range cfg {
-					msg := storagetypes.NewMsgPostFile(u, files[i].merkle, f.size, 0, 0, 1, "{}")
+					mp := int64(len(strings.Split(f.prover, "+")))
+					msg := storagetypes.NewMsgPostFile(u, files[i].merkle, f.size, 0, 0, mp, "{}")
 					if !f.plan {
 						msg.Expires = h + 20_000
 					}
@@ -328,11 +329,13 @@ func c05ConfigEnum(thorough bool) mc.Enum {
 						continue
 					}
 					posted++
-					item, hl := files[i].proofFor(0)
-					env.Deliver(storagetypes.NewMsgPostProof(w.A(f.prover).Bech, files[i].merkle, u, h, item, hl, 0))
+					for _, pv := range strings.Split(f.prover, "+") {
+						item, hl := files[i].proofFor(0)
+						env.Deliver(storagetypes.NewMsgPostProof(w.A(pv).Bech, files[i].merkle, u, h, item, hl, 0))
+					}
 				}
 				cr.Nontrivial = posted >= 2
-				for b := 0; b < 4; b++ {
+				for b := 0; b < 8; b++ { // past the first removal of lapsed provers (height 8)
 					if bp := env.NextBlock(day); bp != nil {
 						cr.Class = "panic"
 						cr.Viols = append(cr.Viols, viol("block-processing-never-panics", panicSig(bp), "files %s: %s of height %d panicked: %s", strings.Join(d, " "), bp.Phase, bp.Height, bp.Value))
@@ -346,8 +349,11 @@ func c05ConfigEnum(thorough bool) mc.Enum {
 			return
 		}
 		for _, sz := range c05CfgSizes {
-			for _, p := range []string{"P1", "P2"} {
+			for _, p := range []string{"P1", "P2", "P1+P2"} {
 				for _, plan := range []bool{false, true} {
+					if p == "P1+P2" && (sz > 1<<62 || plan) {
+						continue // two provers need MaxProofs 2: size*2 must not overflow; keep this variant pay-once
+					}
 					if plan && len(cur) == 0 {
 						continue // a plan-paid post of an extreme size needs space already in use to wrap; keep the first pay-once
 					}
@@ -365,7 +371,7 @@ func init() {
 	prev := Props["C05"].Run
 	Props["C05"] = Prop{Level: "model_checking", Run: func(r *mc.Run, tier string) {
 		prev(r, tier)
-		r.Rules = append(r.Rules, "plus an exhaustive enumeration of reward-block configurations: up to 3 (thorough 4) files, each with FileSize in {1,1000,2^62,2^63-1}, one of two provers, pay-once or plan-paid, posted and proven through real messages, followed by four one-day blocks")
+		r.Rules = append(r.Rules, "plus an exhaustive enumeration of reward-block configurations: up to 3 (thorough 4) files, each with FileSize in {1,1000,2^62,2^63-1}, one or two provers, pay-once or plan-paid, posted and proven through real messages, followed by eight one-day blocks (past the first removal of lapsed provers)")
 		dl := time.Now().Add(40 * time.Second)
 		if tier == "thorough" {
 			dl = time.Now().Add(15 * time.Minute)
